@@ -204,28 +204,37 @@ func TestVerif_C10_Breaker(t *testing.T) {
 			}
 			last := res.Attempts[m-1]
 			if !c10FinalOK(&c.Pool, last, &res) {
-				r.Violation(fmt.Sprintf("C10:breaker:final-outcome-not-last-attempts:last=%s:got=%s/%d", last.Kind, res.Result, res.Status), det())
+				sig := fmt.Sprintf("C10:breaker:final-outcome-not-last-attempts:last=%s:got=%s/%d", last.Kind, res.Result, res.Status)
+				if stale, _ := c10ExpiredStarts(&c.Pool, res.Attempts); len(stale) > 0 && stale[len(stale)-1] == m-1 {
+					// the pool's time limit had expired before that attempt started although it
+					// was not a fresh per-attempt limit (see A7 in c10_retry_test.go)
+					sig += ":last-attempt-started-with-expired-time-limit"
+				}
+				r.Violation(sig, det())
 				okCase = false
 				break
 			}
 			if last.Kind == "hang" && res.Result == resultTimeout {
 				r.Count("timeout_408_inside_breaker_"+mode+"_body", 1)
 			}
+			// (an attempt whose fresh time limit expired before the transport was reached —
+			// machine slowness, accepted by c10FinalOK as timeout — is a failure)
+			lastFailed := last.Kind != "ok" || last.ExpiredAtStart
 			recorded++
-			if last.Kind != "ok" {
+			if lastFailed {
 				failures++
 			}
 			if stream {
 				nStream++
 				r.Count("stream_requests_counted_by_reference", 1)
-				if last.Kind != "ok" && c.Pool.Retry != nil {
+				if lastFailed && c.Pool.Retry != nil {
 					// a buffered body would have been retried here (maxAttempts >= 2)
 					r.Count("stream_request_not_retried_inside_breaker", 1)
 				}
 			} else {
 				nBuffered++
 				recordedBuf++
-				if last.Kind != "ok" {
+				if lastFailed {
 					failuresBuf++
 				}
 			}
